@@ -195,7 +195,7 @@ def run(ctx):
             ref, run0, verdict = run_cfg(shape, dict(p=1, mc=0, mt=0), None, d, variant)
             if verdict != "ok": raise RuntimeError("reference run failed: %s" % verdict)
             tshape = dict(tr=[list(t) for t in shape["tr"]], ch=shape["ch"], fail=[list(t) for t in shape["fail"]])
-            for cfg in grid:
+            for cfg in shape.get("grid", grid):
                 n = 1 if (cfg["p"] == 1 and cfg["mc"] == 0) else nsched
                 for k in range(n):
                     sseed = rng.randrange(1 << 30)
